@@ -38,6 +38,18 @@ def _mk():
         for entry in base:
             nm, fields = entry[0], entry[1]
             SHAPES.append({'name': ('M' if macro.startswith('Market') else 'S') + nm, 'macro': macro, 'member': member, 'fields': fields, 'oneline': len(entry) > 2})
+    # field types that are not plain paths in the macro's input (the struct the compiler sees is the same): a parenthesised type, a type that arrives
+    # through a `$t:ty` fragment of a declarative macro (an invisible group), a type macro.  `how` names the spelling, `which` the fields it applies to.
+    odd = [
+        ('Paren', 'paren', [1, 3], [('', '', 'p0', 'A'), ('', '', 'p1', 'B'), ('', 'pub ', 'p2', 'C'), ('', '', 'p3', 'A'), ('', '', 'p4', 'D')]),
+        ('ParenFirst', 'paren', [0], [('', '', 'q0', 'A'), ('', '', 'q1', 'B'), ('', '', 'q2', 'C')]),
+        ('Group', 'group', [1], [('', '', 'g0', 'A'), ('', '', 'g1', 'B'), ('', '', 'g2', 'C')]),
+        ('GroupTwo', 'group', [0, 2], [('', '', 'h0', 'A'), ('', '', 'h1', 'B'), ('', '', 'h2', 'C'), ('', '', 'h3', 'S1'), ('', '', 'h4', 'A')]),
+        ('TyMac', 'tymac', [1, 2], [('', '', 't0', 'A'), ('', '', 't1', 'B'), ('', '', 't2', 'A'), ('', '', 't3', 'C')]),
+    ]
+    for macro, member in kinds:
+        for nm, how, which, fields in odd:
+            SHAPES.append({'name': ('M' if macro.startswith('Market') else 'S') + nm, 'macro': macro, 'member': member, 'fields': fields, 'oneline': False, 'how': how, 'which': which})
 
 
 _mk()
@@ -88,9 +100,25 @@ def dictionary_shapes(repo):
 
 
 def shape_source():
-    out = ['#![allow(dead_code, unused)]', 'use bourse_macros::{AgentSet, MarketAgentSet};']
+    out = ['#![allow(dead_code, unused, unused_parens)]', 'use bourse_macros::{AgentSet, MarketAgentSet};', 'macro_rules! same_ty { ($t:ty) => { $t }; }']
     for s in SHAPES:
         tps = sorted({f[3] for f in s['fields']})
+        how, which = s.get('how'), s.get('which', [])
+        if how == 'group':
+            # the struct is declared by a declarative macro; the chosen field types are passed as `$t:ty` fragments
+            params = ', '.join('$t%d:ty' % k for k in which)
+            body = ', '.join('%s%s: %s' % (vis, name, ('$t%d' % k) if k in which else ty) for k, (attrs, vis, name, ty) in enumerate(s['fields']))
+            out.append('macro_rules! decl_%s { (%s) => { #[derive(%s)] pub struct %s<%s> { %s } }; }' % (s['name'].lower(), params, s['macro'], s['name'], ', '.join(tps), body))
+            out.append('decl_%s!(%s);' % (s['name'].lower(), ', '.join(s['fields'][k][3] for k in which)))
+            continue
+        if how in ('paren', 'tymac'):
+            out.append('#[derive(%s)]' % s['macro'])
+            out.append('pub struct %s<%s> {' % (s['name'], ', '.join(tps)))
+            for k, (attrs, vis, name, ty) in enumerate(s['fields']):
+                t = ty if k not in which else ('(%s)' % ty if how == 'paren' else 'same_ty!(%s)' % ty)
+                out.append('    %s%s%s: %s,' % (attrs, vis, name, t))
+            out.append('}')
+            continue
         out.append('#[derive(%s)]' % s['macro'])
         if s.get('oneline'):
             # written on one line WITHOUT a trailing comma after the last field
